@@ -4,6 +4,7 @@ compares with the collector's mark bits and the block lists after the real sweep
 import JanetModel.GC.Model
 import JanetModel.GC.Roots
 import JanetModel.GC.Weak
+import JanetModel.GC.SymSweep
 open JanetModel.GC
 
 structure DS where
@@ -24,6 +25,10 @@ structure DS where
   weakDropped : Nat := 0
   weakDiff : Nat := 0
   weakFirst : String := ""
+  symBefore : Option (Nat × Nat × Nat × List String) := none     -- capacity, cache_count, cache_deleted, bucket tokens (before the sweep)
+  symChecked : Nat := 0
+  symDeinit : Nat := 0
+  symDiff : Nat := 0
 
 def parseRef (s : String) : Val := match s.toNat? with | some n => .ref n | none => .imm
 
@@ -78,6 +83,43 @@ def weakCompare (st : DS) (id count deleted : Nat) (slots : List String) : DS :=
               weakDiff := st.weakDiff + (if same then 0 else 1),
               weakFirst := if !same && st.weakFirst == "" then s!"weak:{id}:kind{kind}:model-count{c1}/{d1}:impl-count{count}/{deleted}" else st.weakFirst }
 
+/-! ### the symbol cache across the sweep (GC/SymSweep.lean `sweepCache` = deinit of every freed symbol, in block-list order,
+on the cache model of Value/SymCache.lean) against the real cache after the real sweep: every bucket, count, deleted -/
+
+def hexVal (c : Char) : Nat :=
+  if '0' ≤ c && c ≤ '9' then c.toNat - '0'.toNat else if 'a' ≤ c && c ≤ 'f' then c.toNat - 'a'.toNat + 10 else 0
+
+def hexBytes : List Char → List UInt8
+  | a :: b :: r => (hexVal a * 16 + hexVal b).toUInt8 :: hexBytes r
+  | _ => []
+
+open JanetModel.Value.SymCache in
+def parseSymCache (cap : Nat) (toks : List String) : List Slot × Std.HashMap Nat (List UInt8) :=
+  let (arr, names) := toks.foldl (fun (acc : Array Slot × Std.HashMap Nat (List UInt8)) t =>
+    match t.splitOn ":" with
+    | [b, "D"] => (acc.1.setIfInBounds (b.toNat?.getD cap) .deleted, acc.2)
+    | [b, id, hex] =>
+      let i := id.toNat?.getD 0
+      let bytes := if hex == "-" then [] else hexBytes hex.toList
+      (acc.1.setIfInBounds (b.toNat?.getD cap) (.live i bytes), acc.2.insert i bytes)
+    | _ => acc) (Array.replicate cap Slot.empty, ∅)
+  (arr.toList, names)
+
+open JanetModel.Value.SymCache JanetModel.GC.SymSweep in
+def symCompare (st : DS) (cap count deleted : Nat) (toks : List String) : DS :=
+  match st.symBefore with
+  | none => { st with symDiff := st.symDiff + 1, weakFirst := if st.weakFirst == "" then "symcache:no-before" else st.weakFirst }
+  | some (cap0, count0, deleted0, toks0) =>
+    let (slots0, names0) := parseSymCache cap0 toks0
+    let (slots1, _) := parseSymCache cap toks
+    let m : Std.HashSet Nat := (List.range st.marked.size).foldl (fun s i => if st.marked.getD i false || st.disabled.getD i false then s.insert i else s) ∅
+    let c0 : Cache := { slots := slots0, count := count0, deleted := deleted0, next := 0 }
+    let r := sweepCache m (fun i => names0.get? i) (List.range st.objs.size) c0
+    let same := cap == cap0 && r.slots == slots1 && r.count == count && r.deleted == deleted
+    let firstBad := ((List.range cap).find? (fun i => r.slots.getD i .empty != slots1.getD i .empty)).getD cap
+    { st with symChecked := st.symChecked + 1, symDeinit := st.symDeinit + (count0 - r.count), symDiff := st.symDiff + (if same then 0 else 1),
+              weakFirst := if !same && st.weakFirst == "" then s!"symcache:cap{cap0}:model-count{r.count}/{r.deleted}:impl-count{count}/{deleted}:first-bucket{firstBad}" else st.weakFirst }
+
 def check (st : DS) : String := Id.run do
   let objs := st.objs
   let n := objs.size
@@ -120,8 +162,8 @@ def check (st : DS) : String := Id.run do
       | _, _ => pure ()
   let stuck := m.stuck || m1.stuck || m3.stuck || !m.spill.isEmpty
   if first == "" then first := st.weakFirst
-  let ok := missing == 0 && extra == 0 && dep == 0 && sweepDiff == 0 && !stuck && st.bad == 0 && st.envBad == 0 && st.weakDiff == 0
-  return s!"result ok={if ok then 1 else 0} collection={st.coll} nodes={n} modelmarked={nm} missing={missing} extra={extra} depthdep={dep} sweepdiff={sweepDiff} modelfreed={freed} weakcleared={cleared} stuck={if stuck then 1 else 0} parsebad={st.bad} envmodes={st.envSeen} envbad={st.envBad} opaque={if st.opq then 1 else 0} weaktables={st.weakTables} weakslots={st.weakSlots} weakdropped={st.weakDropped} weakdiff={st.weakDiff} first={if first == "" then "-" else first}"
+  let ok := missing == 0 && extra == 0 && dep == 0 && sweepDiff == 0 && !stuck && st.bad == 0 && st.envBad == 0 && st.weakDiff == 0 && st.symDiff == 0
+  return s!"result ok={if ok then 1 else 0} collection={st.coll} nodes={n} modelmarked={nm} missing={missing} extra={extra} depthdep={dep} sweepdiff={sweepDiff} modelfreed={freed} weakcleared={cleared} stuck={if stuck then 1 else 0} parsebad={st.bad} envmodes={st.envSeen} envbad={st.envBad} opaque={if st.opq then 1 else 0} weaktables={st.weakTables} weakslots={st.weakSlots} weakdropped={st.weakDropped} weakdiff={st.weakDiff} symcaches={st.symChecked} symdeinit={st.symDeinit} symdiff={st.symDiff} first={if first == "" then "-" else first}"
 
 
 /-! ### op-history mode (harness/C01/roots.c): lines `m <op>` are replayed with the model's `stepOp`, `show` prints the
@@ -255,6 +297,10 @@ partial def loop (inp out : IO.FS.Stream) (st : DS) (rs : RS := {}) : IO Unit :=
     loop inp out { st with weakBefore := (id.toNat?.getD 0, kind.toNat?.getD 0, count.toNat?.getD 0, deleted.toNat?.getD 0, slots) :: st.weakBefore } rs
   | "wa" :: id :: _ :: count :: deleted :: slots =>
     loop inp out (weakCompare st (id.toNat?.getD 0) (count.toNat?.getD 0) (deleted.toNat?.getD 0) slots) rs
+  | "sc" :: cap :: count :: deleted :: toks =>
+    loop inp out { st with symBefore := some (cap.toNat?.getD 0, count.toNat?.getD 0, deleted.toNat?.getD 0, toks) } rs
+  | "sca" :: cap :: count :: deleted :: toks =>
+    loop inp out (symCompare st (cap.toNat?.getD 0) (count.toNat?.getD 0) (deleted.toNat?.getD 0) toks) rs
   | "after" :: rest => loop inp out { st with after := rest.filterMap (·.toNat?), hasAfter := !rest.isEmpty } rs
   | "check" :: _ =>
     out.putStrLn (check st)
